@@ -420,10 +420,14 @@ func runCase(c driver.Case) driver.Result {
 		var subscribe func(ctx context.Context, r *rec.Rec) ro.Subscription
 		if which == "BufferWithTime" {
 			o := ro.BufferWithTime[int](d)(subj)
-			subscribe = func(ctx context.Context, r *rec.Rec) ro.Subscription { return o.SubscribeWithContext(ctx, rec.Raw[[]int](r)) }
+			subscribe = func(ctx context.Context, r *rec.Rec) ro.Subscription {
+				return o.SubscribeWithContext(ctx, rec.Raw[[]int](r))
+			}
 		} else {
 			o := ro.SampleTime[int](d)(subj)
-			subscribe = func(ctx context.Context, r *rec.Rec) ro.Subscription { return o.SubscribeWithContext(ctx, rec.Raw[int](r)) }
+			subscribe = func(ctx context.Context, r *rec.Rec) ro.Subscription {
+				return o.SubscribeWithContext(ctx, rec.Raw[int](r))
+			}
 		}
 		ctxA, cancelA := context.WithCancel(context.Background())
 		defer cancelA()
